@@ -92,6 +92,8 @@ def _adjust_attributes_of_avg_pool(
 
     if isinstance(kernel_size, int):
         kernel_shape = [kernel_size] * expand_size
+    elif len(kernel_size) == 1:
+        kernel_shape = list(kernel_size) * expand_size
     else:
         kernel_shape = kernel_size
 
@@ -108,6 +110,8 @@ def _adjust_attributes_of_avg_pool(
         strides = [stride] * expand_size
     elif not stride:
         strides = kernel_shape
+    elif len(stride) == 1:
+        strides = list(stride) * expand_size
     else:
         strides = stride
 
@@ -932,11 +936,15 @@ def _adjust_attributes_of_max_pool(
 ) -> Tuple[Sequence[int], Sequence[int], Sequence[int], Sequence[int]]:
     if isinstance(dilation, int):
         dilations = [dilation] * expand_size
+    elif len(dilation) == 1:
+        dilations = list(dilation) * expand_size
     else:
         dilations = dilation
 
     if isinstance(kernel_size, int):
         kernel_shape = [kernel_size] * expand_size
+    elif len(kernel_size) == 1:
+        kernel_shape = list(kernel_size) * expand_size
     else:
         kernel_shape = kernel_size
 
@@ -965,6 +973,8 @@ def _adjust_attributes_of_max_pool(
         strides = [stride] * expand_size
     elif not stride:
         strides = kernel_shape
+    elif len(stride) == 1:
+        strides = list(stride) * expand_size
     else:
         strides = stride
 
